@@ -15,19 +15,24 @@ EXTENDS HttpStream, Json, IOUtils, TLCExt
 Traces == ndJsonDeserialize(IOEnv.TRACE_FILE)
 NT == Len(Traces)
 
-VARIABLES tid, l, k, plen, ref, verdict
-vars == <<tid, l, k, plen, ref, verdict>>
+VARIABLES tid, l, k, plen, pdone, ref, verdict
+vars == <<tid, l, k, plen, pdone, ref, verdict>>
 
 T == Traces[tid]
 st == Strict(T.ms)
 Cut == T.cut
 IsPrefix(a, b) == Len(a) <= Len(b) /\ a = SubSeq(b, 1, Len(a))
 
-Init == tid \in 1..NT /\ l = 1 /\ k = 0 /\ plen = 0 /\ ref = 0 /\ verdict = "ok"
+Init == tid \in 1..NT /\ l = 1 /\ k = 0 /\ plen = 0 /\ pdone = FALSE /\ ref = 0 /\ verdict = "ok"
 
 PrevComplete ==
   \* the request before the current point was consumed completely (read mode)
   k >= 1 /\ T.mode = "read" /\ st[k].end <= Cut /\ st[k].bv # "reject" => plen = Len(st[k].data)
+
+(* a chunked body whose terminating chunk never arrived must not be handed over as if it had ended: the
+   application read it to "end of file" without an error although the stream stopped in mid-body *)
+PrevTruncatedButComplete ==
+  k >= 1 /\ T.mode = "read" /\ pdone /\ st[k].chunked /\ st[k].bv = "ok" /\ st[k].lastdone > Cut
 
 ReqVerdict(e) ==
   LET i == k + 1 IN
@@ -41,7 +46,8 @@ ReqVerdict(e) ==
   ELSE "ok"
 
 FinVerdict(e) ==
-  IF e.kind = "stop" /\ ~PrevComplete THEN "BodyShort"
+  IF PrevTruncatedButComplete THEN "TruncatedChunkedBodyDeliveredAsComplete"
+  ELSE IF e.kind = "stop" /\ ~PrevComplete THEN "BodyShort"
   ELSE IF e.kind = "toomany" THEN "ExtraRequest"
   ELSE "ok"
 
@@ -49,13 +55,13 @@ Step ==
   /\ verdict = "ok" /\ l <= Len(T.ev)
   /\ LET e == T.ev[l] IN
      IF e.e = "req"
-     THEN /\ verdict' = ReqVerdict(e) /\ k' = k + 1 /\ plen' = Len(e.data) /\ UNCHANGED ref
+     THEN /\ verdict' = ReqVerdict(e) /\ k' = k + 1 /\ plen' = Len(e.data) /\ pdone' = e.done /\ UNCHANGED ref
      ELSE IF e.e = "seg"
      \* C06: e.dig identifies the complete observation (every field, body byte, trailer, end
      \* point) obtained under one segmentation of the same stream; all must be equal
      THEN /\ verdict' = (IF ref # 0 /\ e.dig # ref THEN "SegDependent" ELSE "ok")
-          /\ ref' = (IF ref = 0 THEN e.dig ELSE ref) /\ UNCHANGED <<k, plen>>
-     ELSE /\ verdict' = FinVerdict(e) /\ UNCHANGED <<k, plen, ref>>
+          /\ ref' = (IF ref = 0 THEN e.dig ELSE ref) /\ UNCHANGED <<k, plen, pdone>>
+     ELSE /\ verdict' = FinVerdict(e) /\ UNCHANGED <<k, plen, pdone, ref>>
   /\ l' = l + 1 /\ UNCHANGED tid
 
 Spec == Init /\ [][Step]_vars
